@@ -7,7 +7,7 @@ import logging; logging.disable(logging.CRITICAL)
 
 sys.path.insert(0, '/verif')
 import harness.c02 as H
-rec = {'p': [9, 12, 11, 8, 7, 10, 5, 4, 1, 6, 3, 2], 'problems': ["convert_to_dot_bracket(optimal MILP solution #0): '([[(([)))]]]' objective 0 is not optimal; better levels [1, 0, 0, 2] objective 1", "convert_to_dot_bracket(optimal MILP solution #1): '[(([[(]]])))' objective 0 is not optimal; better levels [1, 0, 0, 2] objective 1"], 'keys': ['BpSeq.dot_bracket:optimal'], 'stats': {'queries': 2, 'unknown': 0, 'lps': 1, 'solutions': 2, 'incomplete': 0, 'lemma_a_unsat': 1, 'lemma_b_unsat': 1}, 'kind': 'pairing', 'id': [[6, 8, 5, 7, 3, 1, 4, 2], [1, 2, 2, 1]]}
+rec = {'p': [9, 12, 11, 8, 7, 10, 5, 4, 1, 6, 3, 2], 'problems': ["convert_to_dot_bracket(optimal MILP solution #0): '([[(([)))]]]' objective 0 is not optimal; better levels [1, 0, 0, 2] objective 1", "convert_to_dot_bracket(optimal MILP solution #3): '[(([[(]]])))' objective 0 is not optimal; better levels [1, 0, 0, 2] objective 1"], 'keys': ['BpSeq.dot_bracket:optimal'], 'stats': {'queries': 4, 'unknown': 0, 'lps': 1, 'solutions': 4, 'incomplete': 0, 'lemma_a_unsat': 1, 'lemma_b_unsat': 1}, 'kind': 'pairing', 'id': [[6, 8, 5, 7, 3, 1, 4, 2], [1, 2, 2, 1]]}
 ok = H.replay(rec)
 print("property holds on this input (not reproduced)" if ok else "REPRODUCED", rec)
 sys.exit(0 if ok else 1)
